@@ -50,3 +50,20 @@ func DebugTraces(repo, rule string) {
 		}
 	}
 }
+
+// DebugWalkPC prints decision orders of the first n traces of a walker-mode run.
+func DebugWalkPC(repo, name string, n int) {
+	p, err := Load(Config{Repo: repo})
+	if err != nil {
+		fmt.Println(err)
+		return
+	}
+	fn := p.funcByName(name)
+	if fn == nil {
+		return
+	}
+	r := exploreWalk(p, fn, nil, summarisedNames(p), n)
+	for i, t := range r.Traces {
+		fmt.Printf("#%d conv=%v cut=%q panic=%q order=%v\n", i, t.Converged, t.Cut, t.Panic, t.Order)
+	}
+}
